@@ -1,6 +1,7 @@
 //! Independent reference implementations (no lopdf types in here).
+pub mod codecs;
 pub mod robj;
 
 pub fn selftests() -> Vec<(&'static str, Result<(), String>)> {
-    vec![]
+    vec![("codecs", codecs::selftest())]
 }
